@@ -1,2 +1,49 @@
-(* C18 — statements (under construction) *)
-From MPD Require Import Bytes Tables ParserModel BuilderModel ConnModel ParserProofs ConnProofs.
+(* C18 — handshake: greeting accepted iff valid (this file: the greeting; the password exchange is
+   stated over the loop model in LoopProofs).  Statements only. *)
+From MPD Require Import Bytes Tables ParserModel BuilderModel ConnModel ParserProofs ConnProofs GrammarProofs.
+Open Scope N_scope.
+
+(* total classification of the first line by the byte string alone *)
+Theorem c18_valid : forall v rest,
+  v <> [] -> no_lf_b v = true -> utf8_valid v = true ->
+  p_greeting (GP ++ v ++ LF :: rest) = ROk (length GP + length v + 1) v.
+Proof. exact greeting_valid. Qed.
+
+Theorem c18_bad_version : forall v rest,
+  no_lf_b v = true -> (v = [] \/ utf8_valid v = false) -> p_greeting (GP ++ v ++ LF :: rest) = RError.
+Proof. exact greeting_bad_version. Qed.
+
+Theorem c18_wrong_prefix : forall i, is_prefix GP i = false -> is_prefix i GP = false -> p_greeting i = RError.
+Proof. exact greeting_wrong_prefix. Qed.
+
+Theorem c18_incomplete_prefix : forall p, is_prefix p GP = true -> p <> GP -> p_greeting p = RIncomplete.
+Proof. exact greeting_incomplete_prefix. Qed.
+
+Theorem c18_incomplete_version : forall v, no_lf_b v = true -> p_greeting (GP ++ v) = RIncomplete.
+Proof. exact greeting_incomplete_version. Qed.
+
+(* ... and connect, for both buffer policies and every segmentation, returns exactly that verdict
+   on the whole stream: version verbatim / invalid message / unexpected EOF (or the I/O error),
+   keeping the bytes after the greeting *)
+Theorem c18_connect_is_reference : forall p r,
+  wf_reader r -> pol_ok p 0 ->
+  let '(o, r') := connect p r in
+  conn_matches o r' (ref_connect (concat (chunks r)) (rtail r)) (rtail r).
+Proof. exact connect_ref. Qed.
+
+Example c18_ex :
+  ref_connect (b "OK MPD 0.23.5" ++ [LF] ++ b "x") TEof = RConnected (b "0.23.5") (b "x") /\
+  ref_connect (b "OK MPD " ++ [255]) TEof = RConnEof /\
+  ref_connect (b "OK MPD " ++ [255; LF]) TEof = RConnInvalid /\
+  ref_connect (b "OK MPD " ++ [LF]) TEof = RConnInvalid /\
+  ref_connect (b "OK MPX") TEof = RConnInvalid /\
+  fst (connect (Blocking 3) (mkReader [b "OK M"; b "PD 1" ++ [LF] ++ b "OK" ++ [LF]] TEof)) =
+    Connected (b "1") (mkConn (Blocking 24) (b "OK" ++ [LF])).
+Proof. repeat split; vm_compute; reflexivity. Qed.
+
+Print Assumptions c18_valid.
+Print Assumptions c18_bad_version.
+Print Assumptions c18_wrong_prefix.
+Print Assumptions c18_incomplete_prefix.
+Print Assumptions c18_incomplete_version.
+Print Assumptions c18_connect_is_reference.
